@@ -32,6 +32,7 @@ class Ctx:
         self.assumptions = []
         self.trusted = []
         self.streams = []
+        self.spec_tie = {'compared': 0}
 
     # -------------------------------------------------------------- counting
     def count(self, key, n=1):
@@ -202,6 +203,13 @@ def main(argv):
             mod.replay(ctx, json.load(open(a.replay)))
         else:
             mod.run(ctx)
+        # 4. oracle-spec tie: what the Python oracles predicted vs the Lean specs the theorems are stated against
+        n_spec, spec_kinds, spec_diffs, spec_err = vlib.spec_flush()
+        ctx.spec_tie = {'compared': n_spec, 'kinds': spec_kinds, 'differences': len(spec_diffs), 'queued': vlib.SPEC_STATS['queued']}
+        if spec_err:
+            ctx.proof_break('oracle-spec tie could not be evaluated', spec_err)
+        for (rq, py, ln) in spec_diffs[:5]:
+            ctx.proof_break('oracle-spec tie broken: `spec %s`: the Python oracle says %s, the Lean spec says %s' % (rq[:300], py[:300], ln[:300]))
     except BuildError as e:
         ctx.proof_break('cannot build the implementation from /repo', str(e))
     except Exception:
@@ -276,6 +284,7 @@ def main(argv):
             'oracle_cases': ctx.oracle_cases,
             'disagreements_checked': len(ctx.disagreements),
             'streams': ctx.streams,
+            'oracle_spec_tie': ctx.spec_tie,
             'distribution': ctx.dist,
             'impl_builds': {k: v.get('key') for k, v in ctx.impl.items()},
             'proof_breaks': [b['what'] for b in ctx.proof_breaks],
